@@ -103,6 +103,42 @@ def fl_design(name, rng):
   body = '\n'.join('    ' + l for l in L)
   return sc.STRUCT_SRC + FMEM + f'\nclass {name}( Component ):\n  def construct( s ):\n{body}\n'
 
+def index_design(name, rng):
+  """reads through signal-valued indices (also when the indexed object is then sliced / a field is taken / a second index
+  follows), writes to signal-indexed targets, and lists of signals iterated by bare name up to 3 levels deep"""
+  v = rng.randrange(6)
+  L = ['s.a = InPort( 2 )', 's.d = InPort( 8 )', 's.sel = Wire( 2 )', 's.row = Wire( 1 )', 's.col = Wire( 1 )', 's.out = OutPort( 8 )',
+       '@update', 'def up_sel():', '  s.sel @= s.a ^ 1', '@update', 'def up_row():', '  s.row @= s.a[1]', '@update', 'def up_col():', '  s.col @= s.a[0]']
+  if v == 0:
+    L += ['s.o = [ OutPort( 8 ) for _ in range(4) ]', '@update', 'def up_demux():', '  for i in range(4):', '    s.o[i] @= 0', f'  s.o[ s.sel {rng.choice(["^ 1", "+ 1", "& 2"])} ] @= s.d', '@update', 'def up_o():', '  s.out @= s.o[0]']
+  elif v == 1:
+    L += ['s.i4 = [ InPort( Pt ) for _ in range(4) ]', '@update', 'def up_mux():', '  s.out @= s.i4[ s.sel ].a']
+  elif v == 2:
+    L += ['s.tbl = [ [ InPort( 8 ) for _ in range(2) ] for _ in range(2) ]', '@update', 'def up_tbl():', '  s.out @= s.tbl[ s.row ][ s.col ]']
+  elif v == 3:
+    L += ['s.i4 = [ InPort( 8 ) for _ in range(4) ]', '@update', 'def up_mux():', '  s.out @= zext( s.i4[ s.sel ][2:6], 8 )']
+  elif v == 4:
+    L += ['s.w8 = Wire( 8 )', '@update', 'def up_bit():', '  s.w8 @= 0', '  s.w8[ zext( s.sel, 3 ) + 1 ] @= s.d[0]', '@update', 'def up_o():', '  s.out @= s.w8']
+  else:
+    depth = rng.randrange(1, 4)
+    dims = [2] * depth
+    decl = 'Wire( 8 )'
+    for d_ in dims: decl = f'[ {decl} for _ in range({d_}) ]'
+    idx = ''.join(f'[i{k}]' for k in range(depth))
+    L += [f's.cube = {decl}', '@update', 'def up_fill():']
+    for k in range(depth): L.append('  ' + '  ' * k + f'for i{k} in range(2):')
+    L.append('  ' + '  ' * depth + f's.cube{idx} @= s.d + zext( s.sel, 8 )')
+    L += ['@update', 'def up_sum():', '  t = Bits8( 0 )']
+    names = ['s.cube', 'plane', 'row'][:depth]
+    var = ['plane', 'row', 'x'][:depth]; var[-1] = 'x'
+    cur = 's.cube'
+    for k in range(depth):
+      L.append('  ' + '  ' * k + f'for {var[k]} in {cur}:'); cur = var[k]
+    L.append('  ' + '  ' * depth + 't = t + x')
+    L.append('  s.out @= t')
+  body = '\n'.join('    ' + l for l in L)
+  return sc.STRUCT_SRC + f'\nclass {name}( Component ):\n  def construct( s ):\n{body}\n'
+
 def graph_design(name, n, edges):
   L = [f's.t = [ Wire( 4 ) for _ in range({n}) ]', 's.i = InPort( 4 )']
   for k in range(n):
@@ -153,6 +189,18 @@ def check_orders(ctx, name, src, cls, variants, coq_cases, coq_meta, needs=None,
           for a in reach:
             new = (set().union(*[reach[b] for b in reach[a]]) - reach[a]) if reach[a] else set()
             if new: reach[a] |= new; changed = True
+        # reads that pymtl3's analysis did not attribute to the block (found by perturbing undeclared signals)
+        dynr = sc.dynamic_reads(top, fpl, random.Random(ctx.rng.randrange(1 << 30)))
+        rinv = {v: k for k, v in fpl.roots.items()}
+        for br, rids in dynr.items():
+          c = fpl.cid[br]
+          for a, ba in enumerate(fpl.comb):
+            if a == c: continue
+            hit = [r for r in rids if any(r == r2 for (r2, l2, h2) in fpl.writes[ba])]
+            if hit and c not in reach[a] and (c, a) not in X:
+              ctx.violation(f'C02:unattributed-read:{name}:{ba.__name__}:{br.__name__}',
+                            f'design {name}: block {br.__name__} really depends on {[repr(rinv[r]) for r in hit[:3]]}, written by {ba.__name__}, but the read is not attributed to it and nothing orders the writer before it',
+                            {'design_source': src, 'writer': ba.__name__, 'reader': br.__name__, 'signals': [repr(rinv[r]) for r in hit]})
         for bw, bits in dyn.items():
           a = fpl.cid[bw]
           for c, bc in enumerate(fpl.comb):
@@ -229,6 +277,14 @@ def run(ctx):
       ctx.hist['family:blocking-method'] = ctx.hist.get('family:blocking-method', 0) + 1
     except Exception as e:
       ctx.violation(f'C02:fl-design-crash:{type(e).__name__}', f'FL design failed: {type(e).__name__}: {str(e)[:200]}', {'design_source': src, 'traceback': traceback.format_exc()[-1500:]})
+  for j in range(12 if quick else 80):
+    src = index_design(f'IX{j}', rng)
+    try:
+      cls, _ = sc.load_source(ctx, src, f'IX{j}')
+      check_orders(ctx, f'IX{j}', src, cls, variants, coq_cases, coq_meta)
+      ctx.hist['family:signal-index'] = ctx.hist.get('family:signal-index', 0) + 1
+    except Exception as e:
+      ctx.violation(f'C02:index-design-crash:{type(e).__name__}', f'index design failed: {type(e).__name__}: {str(e)[:200]}', {'design_source': src, 'traceback': traceback.format_exc()[-1500:]})
   # pure constraint graphs
   for j in range(12 if quick else 60):
     n = rng.choice([5, 8, 13, 30, 60] if quick else [5, 8, 13, 30, 60, 120])
@@ -245,6 +301,15 @@ def run(ctx):
     src = graph_design(f'Y{j}', 5, cyc)
     cls, _ = sc.load_source(ctx, src, f'Y{j}')
     expect_reject(ctx, f'Y{j}', src, cls, f'a cyclic constraint graph {cyc} without any signal')
+  for j, cyc in enumerate([[(0, 1), (1, 2), (2, 0)], [(1, 2), (2, 1)]]):
+    L = ['s.t = [ Wire( 4 ) for _ in range(4) ]', 's.i = InPort( 4 )', 's.o = OutPort( 4 )']
+    for k in range(3): L += ['@update', f'def g{k}():', f'  s.t[{k}] @= s.i + {k}']
+    L += ['@update', 'def outside():', '  s.o @= s.t[1] ^ s.t[2]']          # exchanges signals with blocks of the cycle
+    for a, b in cyc: L.append(f's.add_constraints( U(g{a}) < U(g{b}) )')
+    body = '\n'.join('    ' + l for l in L)
+    src = sc.STRUCT_SRC + f'\nclass YO{j}( Component ):\n  def construct( s ):\n{body}\n'
+    cls, _ = sc.load_source(ctx, src, f'YO{j}')
+    expect_reject(ctx, f'YO{j}', src, cls, f'a cyclic constraint graph {cyc} that carries no signal (its blocks also feed a block outside the cycle)')
   # stdlib CL designs: executed order must be a linear extension of GenDAGPass's constraint set
   cl_orders(ctx)
   defs = '''
